@@ -87,6 +87,7 @@ type world struct {
 	grace    int
 	logout   string
 	snaps    []jar
+	snapBorn []map[string]int64 // per snapshot: cookie name -> birth time of the value held then
 	// reference bookkeeping (oracles)
 	lastInit   map[int]*initRec      // browser -> most recent initiation
 	allInits   map[int][]*initRec
